@@ -138,6 +138,13 @@ func C05Stats(sc *Scenario, res *Result) (classes []string, runningAtStop int) {
 		}
 	}
 	seen := map[string]bool{}
+	for _, m := range sc.Modules {
+		for _, w := range m.Work {
+			if w.Fail {
+				classes = append(classes, "service_worker_in_backoff_at_stop")
+			}
+		}
+	}
 	add := func(c string) {
 		if !seen[c] {
 			seen[c] = true
